@@ -240,6 +240,8 @@ fn oracle_for<P: PopLike>(c: &Case, probe: &mut Probe) -> Result<(), Fail> {
     let mut had_failure = false;
     let mut max_threads = 1;
     let mut shrank = false;
+    // children made in failed rounds since the population last changed
+    let mut pending: Vec<Child> = vec![];
     for (ri, round) in c.rounds.iter().enumerate() {
         let name = if round.parallel { "par_next" } else { "serial_next" };
         let threads = if round.parallel { POOL_SIZES[usize::from(round.pool) % POOL_SIZES.len()] } else { 1 };
@@ -291,6 +293,11 @@ fn oracle_for<P: PopLike>(c: &Case, probe: &mut Probe) -> Result<(), Fail> {
                 old.len()
             );
         }
+        let made_now: Vec<Child> = {
+            let mut m: Vec<Child> = log.iter().filter(|r| !r.failed).map(|r| Child { call: r.call, word: r.word, key: r.key }).collect();
+            m.sort_by_key(|c| c.call);
+            m
+        };
         match result {
             Ok(()) => {
                 ensure!(
@@ -299,12 +306,24 @@ fn oracle_for<P: PopLike>(c: &Case, probe: &mut Probe) -> Result<(), Fail> {
                     "round {ri}: a child maker call failed but {name} returned Ok"
                 );
                 let new = generation.population().members();
+                // Children that may legitimately be in the new population: those made in this round and
+                // those made in failed rounds since the population last changed (they were produced from
+                // this very population; an implementation may keep them for the retry).
+                let is_candidate = |m: &Child| made_now.iter().chain(pending.iter()).any(|c| c == m);
+                let reused = new.iter().filter(|m| pending.iter().any(|c| c == *m)).count();
                 ensure!(
-                    log.len() == old.len(),
+                    made_now.len() <= old.len() && old.len() <= made_now.len() + pending.len(),
                     format!("{name}/wrong-number-of-children-made"),
-                    "round {ri} ({kind}): the child maker was called {} times for a population of {} individuals",
+                    "round {ri} ({kind}): the child maker was called {} times for a population of {} individuals ({} children were left over from failed attempts on this population)",
                     log.len(),
-                    old.len()
+                    old.len(),
+                    pending.len()
+                );
+                ensure!(
+                    new.iter().all(is_candidate),
+                    format!("{name}/population-is-not-the-children-made"),
+                    "round {ri}: the new {kind} population contains an individual that was not produced from the previous population (old members kept, or children of an earlier population): new {:?}",
+                    &new[..new.len().min(6)]
                 );
                 if P::SEQUENCE {
                     ensure!(
@@ -314,42 +333,40 @@ fn oracle_for<P: PopLike>(c: &Case, probe: &mut Probe) -> Result<(), Fail> {
                         old.len(),
                         new.len()
                     );
-                    let mut made: Vec<Child> = log.iter().map(|r| Child { call: r.call, word: r.word, key: r.key }).collect();
                     let mut got: Vec<Child> = new.clone();
-                    if round.parallel {
-                        made.sort();
-                        got.sort();
-                    } else {
-                        made.sort_by_key(|c| c.call);
-                    }
+                    got.sort();
+                    got.dedup();
                     ensure!(
-                        made == got,
+                        got.len() == new.len() && made_now.iter().all(|c| new.contains(c)) && made_now.len() + reused == old.len(),
                         format!("{name}/population-is-not-the-children-made"),
-                        "round {ri}: the new population ({kind}) is not exactly the children produced in this round (old members kept, children lost or duplicated): new {:?} made {:?}",
-                        &got[..got.len().min(6)],
-                        &made[..made.len().min(6)]
+                        "round {ri}: the new population ({kind}) is not exactly the children produced for it (children lost or duplicated): new {:?} made in this round {:?}",
+                        &new[..new.len().min(6)],
+                        &made_now[..made_now.len().min(6)]
                     );
+                    if !round.parallel {
+                        ensure!(
+                            new.windows(2).all(|w| w[0].call < w[1].call),
+                            format!("{name}/population-is-not-the-children-made"),
+                            "round {ri}: serial stepping did not keep the children in the order they were made: {:?}",
+                            new.iter().map(|c| c.call).take(8).collect::<Vec<_>>()
+                        );
+                    }
                 } else {
-                    // a merging population keeps one child per key: the keys must be exactly those of the
-                    // children made in this round, and every member must be one of those children
-                    let made_keys: BTreeSet<u64> = log.iter().map(|r| r.key).collect();
+                    // a merging population keeps one child per key
+                    let made_keys: BTreeSet<u64> = made_now.iter().map(|r| r.key).collect();
                     let got_keys: BTreeSet<u64> = new.iter().map(|c| c.key).collect();
                     ensure!(
-                        made_keys == got_keys && new.len() == got_keys.len(),
+                        made_keys.is_subset(&got_keys) && new.len() == got_keys.len(),
                         format!("{name}/population-is-not-the-children-made"),
                         "round {ri}: the new {kind} population has keys {:?}, the children made in this round have keys {:?}",
                         got_keys.iter().take(8).collect::<Vec<_>>(),
                         made_keys.iter().take(8).collect::<Vec<_>>()
                     );
-                    ensure!(
-                        new.iter().all(|m| log.iter().any(|r| r.call == m.call && r.word == m.word && r.key == m.key)),
-                        format!("{name}/population-is-not-the-children-made"),
-                        "round {ri}: a member of the new {kind} population was not produced in this round"
-                    );
                     if new.len() < old.len() {
                         shrank = true;
                     }
                 }
+                pending.clear();
             }
             Err(ProbeErr(call)) => {
                 had_failure = true;
@@ -366,6 +383,8 @@ fn oracle_for<P: PopLike>(c: &Case, probe: &mut Probe) -> Result<(), Fail> {
                     old.len(),
                     now.len()
                 );
+                // the population is unchanged, so what was made for it so far stays valid for a retry
+                pending.extend(made_now.iter().cloned());
             }
         }
     }
@@ -421,7 +440,7 @@ fn strategy() -> BoxedStrategy<Case> {
 }
 
 pub fn run(ctx: &mut Ctx) {
-    ctx.rule = "population sizes {0, 1, 2..64, 127..300, 1000} held in a Vec, VecDeque, BTreeSet or HashSet (the set kinds merge children with equal keys, so a step can shrink the population and the next step must make as many children as the population then has); 1-4 consecutive generation steps per case on one Generation value, each serial or parallel inside a rayon pool of 1/2/3/4/8/16 threads; the child maker is a probe that records the address and a hash of the population it is shown, draws one word from the generator it is handed, yields/sleeps according to a generated delay script and fails at generated call positions. Oracle after Ok: the child maker was called exactly population-size times, the new population is exactly the children made in this round (sequence for serial, multiset for parallel, key set for the merging kinds) and has the same size unless it merges, every call saw the old population, all drawn words pairwise distinct within and across rounds; after Err: the error is one the probe raised and the population is unchanged. non-trivial = size >= 2 and (a failing child or >= 2 threads); distinct by JSON encoding".into();
+    ctx.rule = "population sizes {0, 1, 2..64, 127..300, 1000} held in a Vec, VecDeque, BTreeSet or HashSet (the set kinds merge children with equal keys, so a step can shrink the population and the next step must make as many children as the population then has); 1-4 consecutive generation steps per case on one Generation value, each serial or parallel inside a rayon pool of 1/2/3/4/8/16 threads; the child maker is a probe that records the address and a hash of the population it is shown, draws one word from the generator it is handed, yields/sleeps according to a generated delay script and fails at generated call positions. Oracle after Ok: the new population consists of exactly population-size children produced from the previous population - those made in this round plus, at most, children left over from failed attempts since the population last changed - in order of production for serial steps (key set for the merging kinds), and has the same size unless it merges, every call saw the old population, all drawn words pairwise distinct within and across rounds; after Err: the error is one the probe raised and the population is unchanged. non-trivial = size >= 2 and (a failing child or >= 2 threads); distinct by JSON encoding".into();
     ctx.assumptions.push("interleavings are perturbed (pool size x delay script), not enumerated: rayon's scheduler is not under the harness's control".into());
     let n = ctx.tier.pick(12_000u32, 400_000);
     let saved = ctx.threads;
